@@ -23,7 +23,8 @@ pub fn scenarios() -> Vec<Scenario> {
     ]
 }
 
-const TAMPER_KINDS: [&str; 5] = ["add-random", "add-one", "zero-share", "other-signers-share", "random-share"];
+const TAMPER_KINDS: [&str; 8] =
+    ["add-random", "add-one", "zero-share", "other-signers-share", "random-share", "negated", "share-of-another-session", "boundary-value"];
 
 /// Replaces the shares of a random non-empty subset of the signers by wrong ones.
 /// Returns (tampered shares, set of participants whose share now differs, sum of all differences).
@@ -32,16 +33,23 @@ fn tamper<C: Suite>(
     rng: &mut TestRng,
     signers: &[Id<C>],
     honest: &BTreeMap<Id<C>, fc::round2::SignatureShare<C>>,
+    other_session: &BTreeMap<Id<C>, fc::round2::SignatureShare<C>>,
     notes: &mut Notes,
 ) -> Result<(BTreeMap<Id<C>, fc::round2::SignatureShare<C>>, BTreeSet<Id<C>>, Sc<C>), Stop> {
     let k = signers.len();
-    let ncheat = match rng.below(6) {
+    let ncheat = match rng.below(8) {
         0 | 1 => 1,
-        2 => 2.min(k),
-        3 => k,
+        2 | 3 => 2.min(k),
+        4 => 3.min(k),
+        5 => k,
         _ => rng.range(1, k),
     };
-    let cheat_idx = rng.subset(k, ncheat);
+    let mut cheat_idx = rng.subset(k, ncheat);
+    // two or three cheaters that are NOT neighbours in identifier order, the lowest signer honest (where the set allows it)
+    if (ncheat == 2 || ncheat == 3) && k >= 2 * ncheat && rng.chance(50) {
+        let first = rng.range(1, k - (2 * ncheat - 1));
+        cheat_idx = (0..ncheat).map(|j| first + 2 * j).collect();
+    }
     let mut shares = honest.clone();
     let mut cheaters = BTreeSet::new();
     let mut total = zero::<C>();
@@ -67,6 +75,13 @@ fn tamper<C: Suite>(
                     None => old,
                 }
             }
+            "negated" => zero::<C>() - old,
+            "share-of-another-session" => match other_session.get(&id) {
+                // the same signer's honest share for the same message under other nonces
+                Some(s) => sigshare_scalar::<C>(s)?,
+                None => old + one::<C>(),
+            },
+            "boundary-value" => pick_boundary::<C>(rng, false).1,
             _ => random_nonzero_scalar::<C>(rng),
         };
         if new != old {
@@ -86,7 +101,9 @@ pub fn scenario_cheaters_named<C: Suite>(rng: &mut TestRng, p: &Params, notes: &
         fc::aggregate::<C>(&sess.package, &sess.shares, &keys.pubkeys),
         "honest aggregation (subject of C01)",
     )?;
-    let (shares, cheaters, total) = tamper::<C>(rng, &signers, &sess.shares, notes)?;
+    // a second session of the same signers on the same message (other nonces): a source of well-formed wrong shares
+    let other = run_session::<C>(rng, &keys.key_packages, &signers, &p.message, false)?;
+    let (shares, cheaters, total) = tamper::<C>(rng, &signers, &sess.shares, &other.shares, notes)?;
     if cheaters.is_empty() {
         return skip("tampering left every share unchanged");
     }
